@@ -16,15 +16,16 @@ import (
 type limits struct{ mem, max int } // max 0 = unlimited
 
 type c15case struct {
-	side    string // "request" or "response"
-	lim     limits
-	size    int
-	chunk   int // request framing (0 = declared) / response write pattern index
-	method  string
-	status  int
-	hdr     int // 0 none, 1 Content-Length: 0, 2 Grpc-Status: 1
-	retries int
-	abort   bool // the handler aborts (panic http.ErrAbortHandler) after writing, as a forwarder does when its backend dies mid-body
+	side           string // "request" or "response"
+	lim            limits
+	size           int
+	chunk          int // request framing (0 = declared) / response write pattern index
+	method         string
+	status         int
+	hdr            int // 0 none, 1 Content-Length: 0, 2 Grpc-Status: 1
+	retries        int
+	clientBreaksAt int  // >=0: the client connection breaks after that many body bytes were delivered
+	abort          bool // the handler aborts (panic http.ErrAbortHandler) after writing, as a forwarder does when its backend dies mid-body
 }
 
 var writePatterns = []string{"one-write", "two-writes-straddling-mem", "two-writes-straddling-max", "bytewise"}
@@ -37,6 +38,9 @@ func (c c15case) String() string {
 	ab := ""
 	if c.abort {
 		ab = " handler-aborts-after-writing"
+	}
+	if c.side == "response" && c.clientBreaksAt >= 0 {
+		ab += fmt.Sprintf(" client-connection-breaks-after-%d-bytes", c.clientBreaksAt)
 	}
 	return fmt.Sprintf("response mem=%d max=%d size=%d writes=%s method=%s status=%d header=%s retries=%d%s", c.lim.mem, c.lim.max, c.size, writePatterns[c.chunk], c.method, c.status, respHdrs[c.hdr], c.retries, ab)
 }
@@ -156,7 +160,24 @@ func runC15(c c15case, rep *lib.Report) {
 		rep.DistrustF("buffer.New: %v", err)
 		return
 	}
-	rec := lib.Serve(b, req)
+	var rec *lib.Recorder
+	if c.side == "response" && c.clientBreaksAt >= 0 {
+		// delivery to the client fails part-way: only the temp-file obligation applies
+		bw := &lib.BrokenWriter{H: http.Header{}, FailAfter: c.clientBreaksAt}
+		func() {
+			defer func() { recover() }()
+			b.ServeHTTP(bw, req)
+		}()
+		rep.Evaluations++
+		rep.Count("broken_client_connections")
+		if left := leftovers(); len(left) > 0 {
+			rep.Count("exchanges_leaving_files")
+			rep.Violate("C15:temp-file-left:response:client-write-failed", fmt.Sprintf("%v: after the exchange completed %d temporary file(s) remain: %v", c, len(left), left), what())
+		}
+		cleanTmp()
+		return
+	}
+	rec = lib.Serve(b, req)
 	rep.Evaluations++
 	left := leftovers()
 	framing := "declared"
@@ -252,13 +273,19 @@ func c15cases(tier string) []c15case {
 			for _, chunk := range []int{0, 1, 5} {
 				for _, method := range []string{"POST", "PUT"} {
 					for _, retries := range []int{0, 1, 2} {
-						out = append(out, c15case{side: "request", lim: l, size: size, chunk: chunk, method: method, retries: retries})
+						out = append(out, c15case{side: "request", lim: l, size: size, chunk: chunk, method: method, retries: retries, clientBreaksAt: -1})
 					}
 				}
 			}
 			for _, wp := range []int{0, 3} {
 				for _, retries := range []int{0, 1} {
-					out = append(out, c15case{side: "response", lim: l, size: size, chunk: wp, method: "GET", status: 200, retries: retries, abort: true})
+					out = append(out, c15case{side: "response", lim: l, size: size, chunk: wp, method: "GET", status: 200, retries: retries, abort: true, clientBreaksAt: -1})
+				}
+			}
+			for _, at := range []int{0, 1, l.mem, size - 1} {
+				if at >= 0 && at < size {
+					out = append(out, c15case{side: "response", lim: l, size: size, chunk: 0, method: "GET", status: 200, clientBreaksAt: at})
+					out = append(out, c15case{side: "response", lim: l, size: size, chunk: 3, method: "POST", status: 500, retries: 1, clientBreaksAt: at})
 				}
 			}
 			for wp := range writePatterns {
@@ -266,7 +293,7 @@ func c15cases(tier string) []c15case {
 					for _, status := range []int{200, 204, 304, 500} {
 						for hdr := range respHdrs {
 							for _, retries := range []int{0, 1, 2} {
-								out = append(out, c15case{side: "response", lim: l, size: size, chunk: wp, method: method, status: status, hdr: hdr, retries: retries})
+								out = append(out, c15case{side: "response", lim: l, size: size, chunk: wp, method: method, status: status, hdr: hdr, retries: retries, clientBreaksAt: -1})
 							}
 						}
 					}
@@ -277,10 +304,10 @@ func c15cases(tier string) []c15case {
 	if tier == "thorough" {
 		big := limits{1 << 20, 2 << 20}
 		for _, size := range []int{1<<20 - 1, 1 << 20, 1<<20 + 1, 2<<20 - 1, 2 << 20, 2<<20 + 1} {
-			out = append(out, c15case{side: "request", lim: big, size: size, chunk: 0, method: "POST"})
-			out = append(out, c15case{side: "request", lim: big, size: size, chunk: 65536, method: "POST", retries: 1})
+			out = append(out, c15case{side: "request", lim: big, size: size, chunk: 0, method: "POST", clientBreaksAt: -1})
+			out = append(out, c15case{side: "request", lim: big, size: size, chunk: 65536, method: "POST", retries: 1, clientBreaksAt: -1})
 			for _, status := range []int{200, 204} {
-				out = append(out, c15case{side: "response", lim: big, size: size, chunk: 0, method: "GET", status: status, retries: 1})
+				out = append(out, c15case{side: "response", lim: big, size: size, chunk: 0, method: "GET", status: status, retries: 1, clientBreaksAt: -1})
 			}
 		}
 	}
@@ -291,7 +318,7 @@ func RunC15(tier string, sh lib.Shard, rep *lib.Report) {
 	cases := c15cases(tier)
 	rep.Bounds["cases"] = len(cases)
 	rep.Rule = "full product (memory threshold, maximum) in {(8,16),(16,16),(32,16),(8,unlimited)} x size {0,mem-1,mem,mem+1,max-1,max,max+1,2max} x request framing {declared, chunked 1/5} / response write pattern {one, straddling mem, straddling max, bytewise} x method x response status {200,204,304,500} x header {-,Content-Length:0,Grpc-Status:1} x retries {0,1,2}; private $TMPDIR per worker inspected after every exchange; non-trivial = exchanges that spilled to disk or exceeded a limit"
-	rep.Require("request_spills", "response_spills", "oversized_requests", "oversized_responses", "aborted_exchanges")
+	rep.Require("request_spills", "response_spills", "oversized_requests", "oversized_responses", "aborted_exchanges", "broken_client_connections")
 	for i, c := range cases {
 		if !sh.Mine(i) {
 			continue
